@@ -8,8 +8,8 @@
     (no overflow in the C++ int arithmetic of the searches).  [inv N st] is jLast <= N-2.
     [le], [lt] are the order of [Ops]; [canon x j] says xs[j] <= x < xs[j+1], or j = N-2 and
     x <= xs[N-1]; [seg x j] says xs[j] <= x <= xs[j+1]. *)
-From Coq Require Import ZArith List.
-From LP Require Import Num OrdLaws C09_Model C09_Proofs C09_Proofs_Ctor C09_Proofs_Session C09_Proofs_Table C09_Proofs_Save C09_Proofs_Integ.
+From Coq Require Import ZArith List Reals.
+From LP Require Import Num NumR OrdLaws C09_Model C09_Model2 C09_Proofs C09_Proofs_Ctor C09_Proofs_Session C09_Proofs_Table C09_Proofs_Save C09_Proofs_Integ C09_Proofs_Eval.
 Import ListNotations.
 Local Open Scope Z_scope.
 
@@ -592,3 +592,166 @@ Theorem C09_interpolate_2d_after_history :
                 canon Ops Nx xv x i /\ canon Ops Ny yv y j.
 Proof. exact @interpolate2_after_history. Qed.
 Print Assumptions C09_interpolate_2d_after_history.
+
+(** ** Seventh pass: the VALUE computations of the 1-D queries are part of the model (coq/C09_Model2.v: seg_value,
+    deriv_value, integ_loop / integ_value, ext_scan / ext_value, glob_value, written after the bodies of Interpolate,
+    Derivative, Integrate, Local_Minimum / Local_Maximum, Global_Minimum / Global_Maximum; [step_full] / [run_full] are
+    step / run of C09_Model.v with them plugged in, the term the correspondence run compares with the library).
+    Tables: x_values = xv, function_values = fv on [0, N); a, b, c, d = av, bv, cv, dv on [0, N-1). *)
+
+(** "each further query returns what a freshly constructed object returns", for the full model (indices and values). *)
+Theorem C09_full_model_history_free :
+  forall (T : Type) (Ops : NumOps T), OrdLaws Ops -> forall (N : Z) (xv fv av bv cv dv : Z -> T),
+  2 <= N -> increasing Ops N xv -> N <= 1073741824 ->
+  forall (h : list (op T)) (q : op T),
+    snd (step_full Ops N xv fv av bv cv dv (run_full Ops N xv fv av bv cv dv h (init Ops)) q) =
+    snd (step_full Ops N xv fv av bv cv dv (fresh (prefactor_after Ops h (n1 Ops))) q).
+Proof. exact @full_history_free. Qed.
+Print Assumptions C09_full_model_history_free.
+
+(** No value computation reads outside x_values, function_values or a coefficient vector, for every index Locate can
+    return (0 <= j <= N-2): the polynomial and its derivatives, the Integrate loop over ANY number of segments (it reads
+    x_values[j + 1] except in its last round), the knot scan of Local_* (it reads x_values[i_2 + 1] and
+    function_values[i_2 + 1], the last entries when i_2 = N-2), the global extrema.  Induction over the loops. *)
+Theorem C09_values_no_out_of_bounds :
+  forall (T : Type) (Ops : NumOps T), OrdLaws Ops -> forall (N : Z) (xv fv av bv cv dv : Z -> T), 2 <= N ->
+  (forall j x, 0 <= j <= N - 2 -> exists v, seg_value Ops N xv av bv cv dv j x = Ok v) /\
+  (forall j x k, 0 <= j <= N - 2 -> exists v, deriv_value Ops N xv av bv cv j x k = Ok v) /\
+  (forall i1 i2 x1 x2 p, 0 <= i1 -> i2 <= N - 2 -> exists v, integ_value Ops N xv av bv cv dv i1 i2 x1 x2 p = Ok v) /\
+  (forall mx fl fr i1 i2 x1 x2 p, 0 <= i1 <= N - 2 -> i2 <= N - 2 -> exists v, ext_value Ops N xv fv mx fl fr i1 i2 x1 x2 p = Ok v) /\
+  (forall mx p, exists v, glob_value Ops N fv mx p = Ok v).
+Proof. exact @values_no_oob. Qed.
+Print Assumptions C09_values_no_out_of_bounds.
+
+(** The knot scan of Local_Minimum: for located segments i_1, i_2 the loop returns one of its candidates — f_left,
+    f_right, prefactor * function_values[k] for a tabulated abscissa i_1 <= k <= i_2 + 1 with x_1 <= x_values[k] <= x_2
+    ([candidate]) — and it is <= every candidate.  For every number of knots (induction), from the order laws alone. *)
+Theorem C09_local_minimum_scan :
+  forall (T : Type) (Ops : NumOps T), OrdLaws Ops -> forall (N : Z) (xv fv : Z -> T) (fl fr : T) (i1 i2 : Z) (x1 x2 p : T),
+  0 <= i1 <= N - 2 -> i2 <= N - 2 ->
+  exists r, ext_value Ops N xv fv false fl fr i1 i2 x1 x2 p = Ok r /\
+            candidate Ops xv fv fl fr i1 i2 x1 x2 p r /\
+            forall c, candidate Ops xv fv fl fr i1 i2 x1 x2 p c -> le Ops r c.
+Proof. exact @local_minimum_value. Qed.
+Print Assumptions C09_local_minimum_scan.
+
+Theorem C09_local_maximum_scan :
+  forall (T : Type) (Ops : NumOps T), OrdLaws Ops -> forall (N : Z) (xv fv : Z -> T) (fl fr : T) (i1 i2 : Z) (x1 x2 p : T),
+  0 <= i1 <= N - 2 -> i2 <= N - 2 ->
+  exists r, ext_value Ops N xv fv true fl fr i1 i2 x1 x2 p = Ok r /\
+            candidate Ops xv fv fl fr i1 i2 x1 x2 p r /\
+            forall c, candidate Ops xv fv fl fr i1 i2 x1 x2 p c -> le Ops c r.
+Proof. exact @local_maximum_value. Qed.
+Print Assumptions C09_local_maximum_scan.
+
+(** "After any sequence of ... extremum queries ..., each further query returns what a freshly constructed object
+    returns", Local_Minimum / Local_Maximum made explicit for EVERY choice of the value computations: after any history,
+    for x_1 <= x_2 in the domain, the four internal Locate calls return THE segments i_1, i_2 of x_1, x_2 (twice each), and
+    the value is the knot scan started from prefactor * S_i1(x_1) and prefactor * S_i2(x_2) with the prefactor of the
+    Set_Prefactor / Multiply calls alone. *)
+Theorem C09_local_extremum_after_history :
+  forall (T : Type) (Ops : NumOps T), OrdLaws Ops -> forall (N : Z) (xv : Z -> T),
+  increasing Ops N xv -> size_ok N ->
+  forall (E : evals T) (mx : bool) (h : list (op T)) (x1 x2 : T),
+    nisnan Ops x1 = false -> nisnan Ops x2 = false -> in_domain Ops N xv x1 -> in_domain Ops N xv x2 ->
+    nltb Ops x2 x1 = false ->
+    exists i1 i2, snd (stepE Ops N xv E (runE Ops N xv E h (init Ops)) (if mx then OpLocalMax x1 x2 else OpLocalMin x1 x2)) =
+                    OValue [i1; i2; i1; i2]
+                      (ev_ext E mx (nmul Ops (prefactor_after Ops h (n1 Ops)) (ev_seg E i1 x1))
+                                   (nmul Ops (prefactor_after Ops h (n1 Ops)) (ev_seg E i2 x2)) i1 i2 x1 x2
+                                   (prefactor_after Ops h (n1 Ops))) /\
+                  canon Ops N xv x1 i1 /\ canon Ops N xv x2 i2.
+Proof. intros T Ops OL N xv Hi Hn E. exact (local_after_history Ops OL N xv Hi Hn _ _ _ _ _). Qed.
+Print Assumptions C09_local_extremum_after_history.
+
+(** Interpolate of the full model after ANY history: the prefactor of the Set_Prefactor / Multiply calls alone times
+    a[j] (x - x_j)^3 + b[j] (x - x_j)^2 + c[j] (x - x_j) + d[j] ([seg_poly], the expression of the source with its
+    operation order) on THE segment j of x — down to the table entries, nothing of the history. *)
+Theorem C09_full_interpolate_after_history :
+  forall (T : Type) (Ops : NumOps T), OrdLaws Ops -> forall (N : Z) (xv fv av bv cv dv : Z -> T),
+  increasing Ops N xv -> size_ok N ->
+  forall (h : list (op T)) (x : T), nisnan Ops x = false -> in_domain Ops N xv x ->
+  exists j, snd (step_full Ops N xv fv av bv cv dv (run_full Ops N xv fv av bv cv dv h (init Ops)) (OpInterpolate x)) =
+              OValue [j] (nmul Ops (prefactor_after Ops h (n1 Ops)) (seg_poly Ops xv av bv cv dv j x)) /\
+            canon Ops N xv x j.
+Proof. exact @full_interpolate_after_history. Qed.
+Print Assumptions C09_full_interpolate_after_history.
+
+(** Integrate of the full model after ANY history: sign times the value v of the summation loop, which ends without
+    an out-of-bounds read, over THE segments of the ordered limits with the prefactor of the history. *)
+Theorem C09_full_integrate_after_history :
+  forall (T : Type) (Ops : NumOps T), OrdLaws Ops -> forall (N : Z) (xv fv av bv cv dv : Z -> T),
+  increasing Ops N xv -> size_ok N ->
+  forall (h : list (op T)) (x1 x2 : T),
+  nisnan Ops x1 = false -> nisnan Ops x2 = false -> in_domain Ops N xv x1 -> in_domain Ops N xv x2 ->
+  exists i1 i2 v,
+    snd (step_full Ops N xv fv av bv cv dv (run_full Ops N xv fv av bv cv dv h (init Ops)) (OpIntegrate x1 x2)) =
+      OValue [i1; i2] (nmul Ops (int_sign Ops x1 x2) v) /\
+    integ_value Ops N xv av bv cv dv i1 i2 (int_lo Ops x1 x2) (int_hi Ops x1 x2) (prefactor_after Ops h (n1 Ops)) = Ok v /\
+    canon Ops N xv (int_lo Ops x1 x2) i1 /\ canon Ops N xv (int_hi Ops x1 x2) i2.
+Proof. exact @full_integrate_after_history. Qed.
+Print Assumptions C09_full_integrate_after_history.
+
+(** Local_Minimum(x_1, x_2) of the full model, x_1 <= x_2 in the domain, after ANY history: the result r is the least of
+    prefactor * S_i1(x_1), prefactor * S_i2(x_2) and prefactor * function_values[k] over the tabulated abscissae
+    i_1 <= k <= i_2 + 1 with x_1 <= x_values[k] <= x_2, and one of them; i_1, i_2 THE segments of x_1, x_2; the prefactor
+    that of the Set_Prefactor / Multiply calls alone.  (Valid for doubles, rounding included.) *)
+Theorem C09_full_local_minimum_after_history :
+  forall (T : Type) (Ops : NumOps T), OrdLaws Ops -> forall (N : Z) (xv fv av bv cv dv : Z -> T),
+  increasing Ops N xv -> size_ok N ->
+  forall (h : list (op T)) (x1 x2 : T),
+  nisnan Ops x1 = false -> nisnan Ops x2 = false -> in_domain Ops N xv x1 -> in_domain Ops N xv x2 ->
+  nltb Ops x2 x1 = false ->
+  let p := prefactor_after Ops h (n1 Ops) in
+  exists i1 i2 r,
+    snd (step_full Ops N xv fv av bv cv dv (run_full Ops N xv fv av bv cv dv h (init Ops)) (OpLocalMin x1 x2)) =
+      OValue [i1; i2; i1; i2] r /\
+    canon Ops N xv x1 i1 /\ canon Ops N xv x2 i2 /\
+    candidate Ops xv fv (nmul Ops p (seg_poly Ops xv av bv cv dv i1 x1)) (nmul Ops p (seg_poly Ops xv av bv cv dv i2 x2)) i1 i2 x1 x2 p r /\
+    forall c, candidate Ops xv fv (nmul Ops p (seg_poly Ops xv av bv cv dv i1 x1)) (nmul Ops p (seg_poly Ops xv av bv cv dv i2 x2)) i1 i2 x1 x2 p c ->
+              le Ops r c.
+Proof. exact @full_local_minimum_after_history. Qed.
+Print Assumptions C09_full_local_minimum_after_history.
+
+Theorem C09_full_local_maximum_after_history :
+  forall (T : Type) (Ops : NumOps T), OrdLaws Ops -> forall (N : Z) (xv fv av bv cv dv : Z -> T),
+  increasing Ops N xv -> size_ok N ->
+  forall (h : list (op T)) (x1 x2 : T),
+  nisnan Ops x1 = false -> nisnan Ops x2 = false -> in_domain Ops N xv x1 -> in_domain Ops N xv x2 ->
+  nltb Ops x2 x1 = false ->
+  let p := prefactor_after Ops h (n1 Ops) in
+  exists i1 i2 r,
+    snd (step_full Ops N xv fv av bv cv dv (run_full Ops N xv fv av bv cv dv h (init Ops)) (OpLocalMax x1 x2)) =
+      OValue [i1; i2; i1; i2] r /\
+    canon Ops N xv x1 i1 /\ canon Ops N xv x2 i2 /\
+    candidate Ops xv fv (nmul Ops p (seg_poly Ops xv av bv cv dv i1 x1)) (nmul Ops p (seg_poly Ops xv av bv cv dv i2 x2)) i1 i2 x1 x2 p r /\
+    forall c, candidate Ops xv fv (nmul Ops p (seg_poly Ops xv av bv cv dv i1 x1)) (nmul Ops p (seg_poly Ops xv av bv cv dv i2 x2)) i1 i2 x1 x2 p c ->
+              le Ops c r.
+Proof. exact @full_local_maximum_after_history. Qed.
+Print Assumptions C09_full_local_maximum_after_history.
+
+(** Global_Minimum / Global_Maximum of the full model after ANY history: min / max of prefactor * f_min and
+    prefactor * f_max, where f_min / f_max are entries of function_values below / above every entry (for every N:
+    induction over the min_element / max_element scans) and the prefactor is that of the Set_Prefactor / Multiply calls. *)
+Theorem C09_full_global_extrema_after_history :
+  forall (T : Type) (Ops : NumOps T), OrdLaws Ops -> forall (N : Z) (xv fv av bv cv dv : Z -> T),
+  increasing Ops N xv -> size_ok N ->
+  forall (mx : bool) (h : list (op T)),
+  let p := prefactor_after Ops h (n1 Ops) in
+  exists f_min f_max,
+    snd (step_full Ops N xv fv av bv cv dv (run_full Ops N xv fv av bv cv dv h (init Ops)) (if mx then OpGlobalMax else OpGlobalMin)) =
+      OValue [] ((if mx then nmax Ops else nmin Ops) (nmul Ops p f_min) (nmul Ops p f_max)) /\
+    (exists k, 0 <= k < N /\ f_min = fv k) /\ (forall k, 0 <= k < N -> le Ops f_min (fv k)) /\
+    (exists k, 0 <= k < N /\ f_max = fv k) /\ (forall k, 0 <= k < N -> le Ops (fv k) f_max).
+Proof. exact @full_global_after_history. Qed.
+Print Assumptions C09_full_global_extrema_after_history.
+
+(** "Set_Prefactor and Multiply change all outputs by exactly the stated factor", for Integrate, over the reals: the
+    summation loop with prefactor p returns p times what it returns with prefactor 1 (every number of segments).  In
+    doubles this holds up to the rounding of the loop (bounded a priori by the S4 stage), not exactly. *)
+Theorem C09_integrate_linear_in_prefactor_real :
+  forall (N : Z) (xv av bv cv dv : Z -> R) (i1 i2 : Z) (x1 x2 p v : R),
+  integ_value ROps N xv av bv cv dv i1 i2 x1 x2 1%R = Ok v ->
+  integ_value ROps N xv av bv cv dv i1 i2 x1 x2 p = Ok (p * v)%R.
+Proof. exact integ_value_linear. Qed.
+Print Assumptions C09_integrate_linear_in_prefactor_real.
